@@ -1020,8 +1020,9 @@ impl MmapXen {
         len: usize,
     ) -> MmapXenSlice {
         match mmap_xen {
-            Some(mmap_xen) => mmap_xen.mmap.mmap_slice(addr, prot, len).unwrap(),
-            None => MmapXenSlice::raw(addr),
+            // A zero-length access touches no memory, and a zero-length mmap() is an error.
+            Some(mmap_xen) if len > 0 => mmap_xen.mmap.mmap_slice(addr, prot, len).unwrap(),
+            _ => MmapXenSlice::raw(addr),
         }
     }
 }
